@@ -41,11 +41,23 @@ def render_msg(units, trail=False):
     return ";".join(units) + (";" if trail and units else "") + "\n"
 
 
-def random_history(rng, vocab, nmsgs, maxunits=4):
+WS_NOISE = [chr(x) for x in list(range(0, 10)) + list(range(11, 33))]
+
+
+def random_history(rng, vocab, nmsgs, maxunits=4, noise=0.0):
+    """messages from a unit vocabulary; noise: probability of optional white space (any of the 32 bytes) before a
+    unit and before ';' / the terminator (CR LF included)"""
     msgs = []
     for _ in range(nmsgs):
         k = rng.choice([0, 1, 1, 2, 2, 3, maxunits])
-        msgs.append(render_msg([rng.choice(vocab) for _ in range(k)], rng.random() < 0.2))
+        units = [rng.choice(vocab) for _ in range(k)]
+        if noise:
+            units = [("".join(rng.choice(WS_NOISE) for _ in range(rng.randint(1, 2))) if rng.random() < noise else "") + u +
+                     ("".join(rng.choice(WS_NOISE) for _ in range(rng.randint(1, 3))) if rng.random() < noise else "") for u in units]
+        m = render_msg(units, rng.random() < 0.2)
+        if noise and rng.random() < noise:
+            m = m[:-1] + rng.choice(WS_NOISE) + "\n"
+        msgs.append(m)
     return msgs
 
 
@@ -349,8 +361,11 @@ def c07(tier):
             label="MCScpiRun(fault vocabulary, units<=2, msgs<=2)")
     s.rng.shuffle(hist)
     nh = 2500 if tier == "quick" else 30000
-    for h in hist[:nh]:
+    for hi_, h in enumerate(hist[:nh]):
         msgs = [bytes(m) for m in h]
+        if hi_ % 3 == 1:      # optional white space (any of the 32 bytes, CR and VT included) directly before the terminator
+            wsb = [x for x in range(0, 33) if x != 10]
+            msgs = [m[:-1] + bytes([s.rng.choice([11, 13, 32, 0, s.rng.choice(wsb)])]) + b"\n" for m in msgs]
         whole = b"".join(msgs)
         n = len(whole)
         N = s.rng.choice([min(64, max(len(m) for m in msgs)), min(n, 64), min(n + 1, 64), s.rng.randint(1, 64), 32, 64])
@@ -359,7 +374,8 @@ def c07(tier):
     # 2c. seeded long streams, also arbitrary bytes
     nlong = 30 if tier == "quick" else 400
     for i in range(nlong):
-        msgs = [m.encode("latin1") for m in random_history(s.rng, VOCAB_FAULT + VOCAB_PATH + C07_EXTRA, s.rng.randint(8, 40 if tier == "quick" else 80))]
+        msgs = [m.encode("latin1") for m in random_history(s.rng, VOCAB_FAULT + VOCAB_PATH + C07_EXTRA, s.rng.randint(8, 40 if tier == "quick" else 80),
+                                                           noise=0.0 if i % 3 == 0 else 0.4)]
         whole = b"".join(msgs)
         if i % 4 == 3:   # corrupt: arbitrary bytes
             ba = bytearray(whole)
@@ -539,6 +555,17 @@ def c08_messages(rng, tier):
         msgs.append(b"A:B;K " + blk + b";B\n")
         msgs.append(b"A:H? " + blk + b";D\n")
         msgs.append(b"A:B;S " + txt + b";B\n")
+    # payloads that themselves look like program syntax: block headers, numbers, headers, separators, terminators
+    syn = [b"#15\n", b"#15\nab", b"#299\nabc", b"#10\n", b"#H1F\n", b"*X\n", b":A:B\n", b"A:S 'x'\n", b";A:B;\n", b"1,2,#13\n", b"#11\n#11\n", b"#9\n",
+           b"\n#15", b"x#13\n\n\n", b"#15#15\n", b"#216\n"]
+    for t in syn:
+        for q in (b'"', b"'"):
+            msgs.append(b"A:S " + quoted(t, q) + b"\n")
+            msgs.append(b"A:B;S " + quoted(t, q) + b";B\nD\n")
+            msgs.append(b"A:E? " + quoted(t, q) + b";B\n")
+        msgs.append(b"A:K " + block(t) + b"\n")
+        msgs.append(b"A:B;K " + block(b"ab" + t + b"cd") + b";B\nD\n")
+        msgs.append(b"A:P 7," + quoted(t, b"'") + b"," + block(t) + b";B\n")
     for p1 in (b'"x\ny"', b"'\n'", b"'a;\n,b'"):
         for p2 in (b"#13a\nb", b"#11\n", b"#14;\n,\n"):
             msgs.append(b"A:S " + p1 + b";K " + p2 + b";B\n")
@@ -815,7 +842,7 @@ def c12(tier):
         s.model("MCScpiSyntax", syntax_params(iface, sigma, L, prefix, starts, True), raw_replay=raw,
                 label="MCScpiSyntax(%s, |Sigma|=%d, L<=%d)" % (label, len(sigma), L), workers=8 if tier == "quick" else 14, heap="12g")
     # the implementation-shaped parser (transcription of parser.rs) refines the grammar; the pre-repair ordered choice does not
-    pjobs = [(CLASS_SIGMA, 3, ""), ('a"\'\n;, #1', 4, "A:S "), ('1+-.Ee, \n;', 3, "A:P ")] if tier == "quick" else \
+    pjobs = [(CLASS_SIGMA, 3, ""), ('a"\'\n;, #1', 3, "A:S "), ('1+-.Ee, \n;', 3, "A:P ")] if tier == "quick" else \
             [(CLASS_SIGMA, 4, ""), ('a"\'\n;, #1', 5, "A:S "), ('1+-.Ee, \n;', 5, "A:P "), ('#HhBbQq1278aF, \n"', 4, "A:P ")]
     for (sigma, L, prefix) in pjobs:
         nm, defs = syntax_params("main", sigma, L, prefix, starts[:3], False)
@@ -906,6 +933,13 @@ def c05(tier):
     for n in ((63, 64, 65, 255, 256, 257, 1000, 4096) if tier == "quick" else (15, 16, 17, 63, 64, 65, 127, 128, 255, 256, 257, 300, 511, 512, 1000, 1023, 2048, 4095, 4096)):
         for msg in (b"A:K " + block(bytes((7 * k) % 251 for k in range(n))) + b"\n", b"A:S '" + b"s" * n + b"'\n", b"A:E? \"" + b"e" * n + b"\"\n"):
             cases.append({"kind": "multi", "iface": "main", "in": b(msg), "writers": mw[:4], "procs": [{"N": 1024, "chunks": []}] if n < 1000 else []})
+    rdesc = json.load(open(os.path.join(C.SPEC, "ifaces", "resp.json")))
+    for c in rdesc["cmds"]:
+        sp = c["beh"].get("spec", {})
+        for i in range(len(sp["vals"]) if sp.get("k") == "table" else 0):
+            cases.append({"kind": "multi", "iface": "resp", "in": list(("%s %d\n" % (c["cmd"], i)).encode()),
+                          "writers": [{"k": "rec"}, {"k": "heapless", "cap": 4}, {"k": "heapless", "cap": 16}, {"k": "heapless", "cap": 2048}],
+                          "procs": [{"N": 64, "chunks": []}, {"N": 1024, "chunks": []}]})
     # (3) seeded random / mutated inputs over all 256 byte values
     for i in range(300 if tier == "quick" else 5000):
         n = s.rng.choice([1, 2, 5, 17, 64, 200, 1000, 4096 if tier == "thorough" else 600])
@@ -968,8 +1002,12 @@ def tree_pool(tier):
     return out
 
 
-SIB_DECLS = ["SYST:BEEP", "OUTPuts:COUNt?", "OUTP:ALL", "IN_SEL", "INPut:GAIN", "INIT", "IN1?", "IN_SEL?", "OUT_ENable", "OUTPut:STATe", "OUT2", "OUTA?", "MEASure?", "ME_as", "MEAN?",
+SIB_DECLS = ["DISPlay:[LAY]:TEXT", "Ab:[Bc]", "ABc:[C]?", "SYST:BEEP", "OUTPuts:COUNt?", "OUTP:ALL", "IN_SEL", "INPut:GAIN", "INIT", "IN1?", "IN_SEL?", "OUT_ENable", "OUTPut:STATe", "OUT2", "OUTA?", "MEASure?", "ME_as", "MEAN?",
              "Z_", "ZA", "Z1", "Z_A?", "SYS:IN_SEL", "SYS:INPut", "SYS:INIT?", "SYS:IN1", "SYS:OUT_ENable?", "SYS:OUTPut", "SYS:Z_", "SYS:ZA", "SYS:Z1?"]
+
+
+FIXED_AMBIG = [("DISPlay:[LAY]:TEXT", "DISP:LAY:TEXT"), ("Ab:[Bc]", "A:B"), ("ABc:[C]?", "AB:C?"), ("SOURce:[LEVel]:AMPLitude", "SOUR:AMPL"),
+               ("X:[Ab]:[AB]", "X:A:AB"), ("MEASure:VOLTage?", "MEAS:VOLTAGE?")]
 
 
 def pool_decl_tla(cmd):
@@ -1064,7 +1102,7 @@ def tree_check(prop, tier):
     key = lambda x: (tuple(x["chosen"]), x["std"], x["err"])   # noqa: E731
     unakeys = {key(x) for x in una}
     K_amb = 40 if tier == "quick" else 400
-    K_ctl = 90 if tier == "quick" else 1200
+    K_ctl = 60 if tier == "quick" else 1200
     # collisions with the built-in SYSTem commands first (they involve a handler the user never wrote)
     amb_attr = [x for x in amb if x["std"] or x["err"]]
     amb_s = (amb_attr[: K_amb // 3] + [x for x in amb if not (x["std"] or x["err"])])[:K_amb]
@@ -1090,11 +1128,22 @@ def tree_check(prop, tier):
     pool2 = pool + SIB_DECLS
     sib = {"chosen": list(range(len(pool) + 1, len(pool2) + 1)), "std": False, "err": True}
     ctl.append(sib)
+    # fixed ambiguous pairs whose collision hides behind a coincidence of letters (short form + next mnemonic = long form):
+    # TLC must classify them as ambiguous, the macro must reject them in both declaration orders
+    fixed_amb = []
+    for a, c in FIXED_AMBIG:
+        pool2 = pool2 + [a, c]
+        fixed_amb.append({"chosen": [len(pool2) - 1, len(pool2)], "std": False, "err": False})
     pool = pool2
     # phase 2: test headers of the control sets
     emitted = []
-    s.model("MCScpiTree", tree_params(pool, md if tier == "quick" else 3, "emit", [(x["chosen"], x["std"], x["err"]) for x in ctl]),
+    s.model("MCScpiTree", tree_params(pool, md if tier == "quick" else 3, "emit", [(x["chosen"], x["std"], x["err"]) for x in ctl + fixed_amb]),
             on_line=emitted.append, workers=10, timeout=3000, label="MCScpiTree emit(%d control sets)" % len(ctl), heap="12g")
+    famb = [x for x in emitted if any(x["chosen"] == f["chosen"] for f in fixed_amb)]
+    if len(famb) != len(fixed_amb) or not all(x["ambiguous"] for x in famb):
+        raise C.ToolError("the specification does not classify the fixed ambiguous pairs as ambiguous")
+    emitted = [x for x in emitted if x not in famb]
+    amb_s = famb + amb_s
     # generate: control crate (must build) and ambiguous crate (every module must fail in the macro)
     descs = []
     for k, x in enumerate(emitted):
@@ -1189,7 +1238,7 @@ def tree_check(prop, tier):
         tests = sorted(x["tests"])
         s.rng.shuffle(tests)
         decl_paths = set()
-        lim = (120 if tier == "quick" else 250) if len(x["chosen"]) < 10 else 4000
+        lim = (100 if tier == "quick" else 250) if len(x["chosen"]) < 10 else (2500 if tier == "quick" else 100000)
         for p in tests[:lim]:
             for q in (False, True):
                 for h in header_variants(s.rng, p, q, False):
@@ -1263,7 +1312,8 @@ CHECKS["C14"] = lambda tier: tree_check("C14", tier)
 
 
 # ----------------------------------------------------------------------- C09
-QUEUE_VOCAB = ["C", "F", "G", "Z", "N 999", "N", "T 5", "SYST:ERR?", "SYST:ERR:NEXT?", "SYST:ERR:COUN?", "Q?", "H?", "SYST:VERS?"]
+QUEUE_VOCAB = ["C", "F", "G", "Z", "N 999", "N", "T 5", "SYST:ERR?", "SYST:ERR:NEXT?", "SYST:ERR:COUN?", "Q?", "H?", "SYST:VERS?",
+               "SYST:ERR? 1", "SYST:ERR:COUN? 0", "SYST:ERR:NEXT? #H1", "SYST:VERS? 'x'", "SYST:ERR", "SYST:ERR:COUN"]
 QUEUE_CODES = [-113, -104, -120, -224, -350, -115]
 
 
@@ -1469,7 +1519,7 @@ def c03_literals(rng, tier):
         for k in longs:
             out.append((ty, k))
     # every kind of data into every type
-    kinds = ["ON", "off", "On", "TRUE", "false", "MAX", "1", "0", "01", "1.0", "+1", "2", "#H1", "#B0", "#Q7", "#HFF", "'1'", '"ON"', "''", "#11", "#10", "#213abcdefghijklm", "1e0", "-0", "0.0", "1E400", "1e-400"]
+    kinds = ["INF", "inf", "INFINITY", "Infinity", "NAN", "nan", "NINF", "MIN", "DEF", "E5", "e", "x1", "ON", "off", "On", "TRUE", "false", "MAX", "1", "0", "01", "1.0", "+1", "2", "#H1", "#B0", "#Q7", "#HFF", "'1'", '"ON"', "''", "#11", "#10", "#213abcdefghijklm", "1e0", "-0", "0.0", "1E400", "1e-400"]
     for ty in TYNAME:
         for k in kinds:
             out.append((ty, k))
@@ -1644,6 +1694,17 @@ def c04(tier):
     for ty, (lo, hi) in INT_BOUNDS.items():
         for v in sorted(x for x in {lo, lo + 1, -1, 0, 1, 9, 10, 99, 100, hi - 1, hi} if lo <= x <= hi):
             msgs.append("R:%s? %d" % (TYNAME[ty], v))
+    # integers with decimal structure: powers of ten and their neighbours, multiples with long zero runs, repdigits
+    deci = set()
+    for k in range(0, 20):
+        for m_ in (1, 2, 4, 9, 12345):
+            deci |= {m_ * 10 ** k, m_ * 10 ** k - 1, m_ * 10 ** k + 1}
+        deci |= {int("9" * (k + 1)), int("1" + "0" * k + "1"), 3 * 10 ** 18 + 123456789, 10 ** 18 + 10 ** 9, 5 * 10 ** 9 + 123}
+    for ty, (lo, hi) in INT_BOUNDS.items():
+        for v in sorted(deci):
+            for sv in (v, -v):
+                if lo <= sv <= hi and (abs(sv) >= 10 ** 8 or ty in ("u8", "i8", "u16", "i16")):
+                    msgs.append("R:%s? %d" % (TYNAME[ty], sv))
     for c in desc["cmds"]:
         sp = c["beh"].get("spec", {})
         if sp.get("k") == "table":
